@@ -311,6 +311,7 @@ def vec_push(it, args, n, f):
         if key is None:
             raise Unrecognised("arena.push without a preceding len()")
         it.emit("arena_push", table=v.arena.name, key=key)
+        v.arena.fresh_keys.add(key)
         cell = v.arena.node(SymV(key))
         # overwrite all four fields of the new slot
         for fn_, c in node.fields.items():
